@@ -122,7 +122,7 @@ pub proof fn lemma_strz_is_longest(d: Seq<u8>, off: int, t: Seq<u8>, n: int)
 }
 
 // ---- A1: every slice has at most isize::MAX elements (language invariant)
-pub mod ax { use vstd::prelude::*;
+pub mod ax { use vstd::prelude::*; use vstd::std_specs::cmp::PartialEqSpec;
 pub broadcast proof fn lemma_subrange_subrange(s: Seq<u8>, a: int, b: int, c: int, d: int)
     requires 0 <= a <= b <= s.len(), 0 <= c <= d <= b - a
     ensures #[trigger] s.subrange(a, b).subrange(c, d) == s.subrange(a + c, a + d)
@@ -131,6 +131,14 @@ pub broadcast proof fn lemma_slice_ext(a: &[u8], b: &[u8])
     requires a@ == b@
     ensures #![trigger a@, b@] a == b
 { assert(a@ =~= b@); }
+// `a == b` on byte slices (exec) is equality of contents
+pub broadcast proof fn lemma_slice_eq_u8(a: &[u8], b: &[u8])
+    ensures #[trigger] a.eq_spec(b) == (a@ == b@)
+{
+    assert(a.eq_spec(b) == (a@.len() == b@.len() && forall|i: int| 0 <= i < a@.len() ==> (#[trigger] a@[i]).eq_spec(&b@[i])));
+    assert(forall|x: u8, y: u8| x.eq_spec(&y) == (x == y));
+    if a.eq_spec(b) { assert(a@ =~= b@); }
+}
 #[verifier::external_body]
 pub broadcast proof fn axiom_slice_len_bound(s: &[u8]) ensures #[trigger] s@.len() <= isize::MAX {}
 }
